@@ -1,6 +1,8 @@
 package c16
 
 import (
+	"strings"
+
 	sdkmath "cosmossdk.io/math"
 	sdk "github.com/cosmos/cosmos-sdk/types"
 
@@ -23,9 +25,13 @@ func tokenSpec() *spec[v1.Params] {
 	}
 	const beacon = "0x00000000000000000000000000000000000000b1"
 	return &spec[P]{
-		module:          "token",
-		baseNote:        "module defaults: token_tax_rate 0.4, issue_token_base_fee 60000stake, mint_token_fee_ratio 0.1, enable_erc20 true, beacon unset",
-		base:            v1.DefaultParams,
+		module:   "token",
+		baseNote: "module defaults (token_tax_rate 0.4, issue_token_base_fee 60000stake, mint_token_fee_ratio 0.1, enable_erc20 true) with the beacon set to a 0x-prefixed address, so that the ERC20 operations succeed under the base set",
+		base: func() P {
+			p := v1.DefaultParams()
+			p.Beacon = beacon
+			return p
+		},
 		productThorough: true,
 		fields: []field[P]{
 			decField[P]("token_tax_rate", true, func(p *P, d sdkmath.LegacyDec) { p.TokenTaxRate = d }),
@@ -33,7 +39,8 @@ func tokenSpec() *spec[v1.Params] {
 			decField[P]("mint_token_fee_ratio", true, func(p *P, d sdkmath.LegacyDec) { p.MintTokenFeeRatio = d }),
 			listField[P, bool]("enable_erc20", false, func(p *P, v bool) { p.EnableErc20 = v }, []lv[bool]{{"false", false}}, nil),
 			listField[P, string]("beacon", false, func(p *P, v string) { p.Beacon = v },
-				[]lv[string]{{"hex-address", beacon}, {"not-hex", "0xzz"}, {"too-short", "0x1234"}}, nil),
+				[]lv[string]{{"unset", ""}, {"hex-address-without-0x", beacon[2:]}, {"hex-address-upper-case", "0X" + strings.ToUpper(beacon[2:])},
+					{"not-hex", "0xzz"}, {"too-short", "0x1234"}}, nil),
 		},
 		validate: func(p P) error { return p.Validate() },
 		msg:      func(a string, p P) sdk.Msg { return &v1.MsgUpdateParams{Authority: a, Params: p} },
@@ -54,6 +61,9 @@ func tokenSpec() *spec[v1.Params] {
 		},
 		fixture: func(e *mc.Env) *mc.State {
 			s := &mc.State{Ctx: mc.Branch(e.Root)}
+			bp := v1.DefaultParams()
+			bp.Beacon = beacon
+			must(s.Deliver(e, "fx-params", &v1.MsgUpdateParams{Authority: mc.Authority().String(), Params: bp}), "base params")
 			must(s.Deliver(e, "fx-issue", &v1.MsgIssueToken{Symbol: "tka", Name: "token a", MinUnit: "utka", Scale: 6, InitialSupply: 1000,
 				MaxSupply: 1_000_000, Mintable: true, Owner: addr("A")}), "issue tka")
 			s.NextBlock(e, blockDT)
@@ -71,6 +81,7 @@ func tokenSpec() *spec[v1.Params] {
 			{"transfer-token-owner", "MsgTransferTokenOwner", one(&v1.MsgTransferTokenOwner{SrcOwner: addr("A"), DstOwner: addr("B"), Symbol: "tka"})},
 			{"swap-fee-token", "MsgSwapFeeToken", one(&v1.MsgSwapFeeToken{FeePaid: mc.C("utka", 10), Sender: addr("A")})},
 			{"deploy-erc20", "MsgDeployERC20", one(&v1.MsgDeployERC20{Symbol: "tka", Name: "token a", Scale: 6, MinUnit: "utka", Authority: mc.Authority().String()})},
+			{"upgrade-erc20", "MsgUpgradeERC20", one(&v1.MsgUpgradeERC20{Implementation: "0x00000000000000000000000000000000000000c2", Authority: mc.Authority().String()})},
 			{"swap-to-erc20", "MsgSwapToERC20", one(&v1.MsgSwapToERC20{Amount: mc.C("utka", 10), Sender: addr("A"), Receiver: beacon})},
 			{"idle", "blocks-only", func(e *mc.Env, s *mc.State) []sdk.Msg { return nil }},
 		},
